@@ -356,16 +356,17 @@ class Expectation:
 
         # chemical hybrids
         problems = [f"unknown kind {k}" for k in unknown_kinds]
-        used = [0] * len(self.hybrids)
-        for actual in by_kind["H"]:
-            matches = [n for n, (must, may) in enumerate(self.hybrids) if must <= actual <= (must | may)]
+        fits = [[n for n, (must, may) in enumerate(self.hybrids) if must <= actual <= (must | may)]
+                for actual in by_kind["H"]]
+        for actual, matches in zip(by_kind["H"], fits):
             if not matches:
                 problems.append(f"hybrid candidate {sorted(actual)} is no share-group plus contained cores")
-            for n in matches[:1]:
-                used[n] += 1
-        for n, (must, may) in enumerate(self.hybrids):
-            if used[n] != 1:
-                problems.append(f"share group {sorted(must)} (+optional {sorted(may)}) has {used[n]} hybrid candidates")
+        if len(by_kind["H"]) != len(self.hybrids) or not any(
+                all(perm[a] in fits[a] for a in range(len(fits)))
+                for perm in itertools.permutations(range(len(self.hybrids)), len(fits))):
+            if not problems:
+                problems.append("the hybrid candidates do not correspond one-to-one to the share groups "
+                                + str([(sorted(must), sorted(may)) for must, may in self.hybrids]))
         results.append(("hybrid-groups-exact", not problems,
                         "; ".join(problems) + f" | hybrids found {[sorted(a) for a in by_kind['H']]}"))
 
@@ -627,24 +628,34 @@ def _hybrid_merge_fails(case: Dict[str, Any], min_start: Sequence[int]) -> bool:
         start, end = case["protos"][index][0]
         return (0, length) if start >= end else (start, end)
 
-    order = sorted(sorted(range(len(case["protos"])), key=extent_key), key=core_key)
-    pairs = [{a, b} for position, a in enumerate(order) for b in order[position + 1:]
-             if (min(a, b), max(a, b)) in shared]
-    if (min(order[0], order[-1]), max(order[0], order[-1])) in shared:
-        pairs.append({order[0], order[-1]})
-    ordered = sorted((set(pair) for pair in pairs), key=lambda group: min(min_start[i] for i in group))
-    for index, first in enumerate(ordered[:-1]):
-        if not first:
-            continue
-        for second in ordered[index + 1:]:
-            if not first.isdisjoint(second):
-                first.update(second)
-                second.clear()
-    seen: Set[int] = set()
-    for group in ordered:
-        if seen & group:
-            return True
-        seen |= group
+    base = sorted(sorted(range(len(case["protos"])), key=extent_key), key=core_key)
+    # protoclusters with identical extent and core bounds tie: their order follows the supply order
+    blocks: List[List[int]] = []
+    for index in base:
+        if blocks and extent_key(blocks[-1][0])[:2] == extent_key(index)[:2] and \
+                core_key(blocks[-1][0]) == core_key(index):
+            blocks[-1].append(index)
+        else:
+            blocks.append([index])
+    for choice in itertools.islice(itertools.product(*[itertools.permutations(b) for b in blocks]), 48):
+        order = [index for block in choice for index in block]
+        pairs = [{a, b} for position, a in enumerate(order) for b in order[position + 1:]
+                 if (min(a, b), max(a, b)) in shared]
+        if (min(order[0], order[-1]), max(order[0], order[-1])) in shared:
+            pairs.append({order[0], order[-1]})
+        ordered = sorted((set(pair) for pair in pairs), key=lambda group: min(min_start[i] for i in group))
+        for index, first in enumerate(ordered[:-1]):
+            if not first:
+                continue
+            for second in ordered[index + 1:]:
+                if not first.isdisjoint(second):
+                    first.update(second)
+                    second.clear()
+        seen: Set[int] = set()
+        for group in ordered:
+            if seen & group:
+                return True
+            seen |= group
     return False
 
 
@@ -670,8 +681,8 @@ def _is_merge(clause: str, case: Dict[str, Any]) -> bool:
         return True
     if clause == "hybrid-groups-exact":
         return False
-    if not (case["circ"] and any(spans_origin(extent) for _, extent in case["protos"])):
-        return False      # on a line interval overlaps ordered by start merge correctly
+    if count <= 4 and not (case["circ"] and any(spans_origin(extent) for _, extent in case["protos"])):
+        return False      # up to 4 intervals on a line, ordered by start, always merge correctly
     unit = {}
     for must, may in expectation.hybrids:
         for i in must:
@@ -814,12 +825,14 @@ def _is_single_key(clause: str, case: Dict[str, Any]) -> bool:
     for index, (_, extent) in enumerate(case["protos"]):
         if index in absorbed or not spans_origin(extent):
             continue
+        others = [i for i in range(expectation.count) if i != index
+                  and expectation.extents[i] & ~expectation.extents[index] == 0]
+        if others:
+            return True                   # a candidate made of it and protoclusters inside it has
+                                          # identical coordinates, yet the single is kept
         for _, members in groups:
-            if index not in members:
-                continue
-            if _union(expectation.extents, members) == expectation.extents[index]:
-                return True               # identical coordinates, yet the single is kept
-            if _pinned_whole_record([case["protos"][i][1] for i in members], case["L"]):
+            if index in members and \
+                    _pinned_whole_record([case["protos"][i][1] for i in members], case["L"]):
                 return True               # a [0:L) candidate: the single is dropped
     return False
 
@@ -842,6 +855,61 @@ def _is_cross_origin_subset(clause: str, case: Dict[str, Any]) -> bool:
     return False
 
 
+def _is_whole_ring_core(clause: str, case: Dict[str, Any]) -> bool:
+    """F7: ring; the cores of a share group cover every base of the record: the pinned core span is
+    a two-part location with an arbitrary cut, and a core lying across that cut is not "contained",
+    so the hybrid misses a protocluster whose core lies inside the group's core span."""
+    if _plain(clause) not in KIND_CLAUSE.values() or not case["circ"]:
+        return False
+    expectation, _ = _group_levels(case)
+    full = (1 << case["L"]) - 1
+    return any(_union(expectation.cores, group) == full and len(group) < expectation.count
+               for group in expectation.share_groups)
+
+
+def _is_bisect_window(clause: str, case: Dict[str, Any]) -> bool:
+    """F8: at least three hybrid/interleaved candidates exist when a leftover protocluster is
+    compared with the candidates: the pinned scans start at `bisect_left(candidates, x) - 1` and
+    skip earlier candidates, so an overlap with a long candidate that sorts two or more places
+    before the protocluster is missed (needs >= 5 protoclusters)."""
+    if _plain(clause) not in ("interleaved-groups-exact", "neighbouring-groups-exact"):
+        return False
+    expectation, _ = _group_levels(case)
+    strong = len(expectation.hybrids) + len([g for g in expectation.core_groups
+                                             if not any(set(g) == must | may for must, may in expectation.hybrids)])
+    leftover = expectation.count - len({i for g in expectation.core_groups for i in g})
+    if _plain(clause) == "interleaved-groups-exact":
+        in_hybrid = {i for must, may in expectation.hybrids for i in must | may}
+        return len(expectation.hybrids) >= 2 and len(in_hybrid) < expectation.count
+    return strong >= 3 and leftover >= 1
+
+
+def _is_tie_order(clause: str, case: Dict[str, Any]) -> bool:
+    """F9: order-independent with >= 5 protoclusters of which two have identical extents (a tie in
+    the record's ordering, resolved by the order of supply) and at least 3 sharing pairs: which
+    sharing pairs the single-pass merge (C05-F2) joins depends on the tie order."""
+    if _plain(clause) != "order-independent" or len(case["protos"]) < 5 or len(case["share"]) < 3:
+        return False
+    extents = [tuple(extent) for _, extent in case["protos"]]
+    return len(set(extents)) < len(extents)
+
+
+def _is_compound(clause: str, case: Dict[str, Any]) -> bool:
+    """F10: >= 5 protoclusters (beyond the bound up to which F1-F9 were delimited clause by
+    clause): the defects compound - a split or folded group changes what every later pass sees -
+    so for the kind clauses, singles-exact and order-independent the class is only "the input
+    shows the feature of at least one of F1-F9 (for whatever clause)"."""
+    plain = _plain(clause)
+    if len(case["protos"]) < 5 or plain not in list(KIND_CLAUSE.values()) + ["singles-exact", "order-independent"]:
+        return False
+    probes = list(KIND_CLAUSE.values()) + ["singles-exact", "location-is-span-of-members"]
+    for predicate in (_is_promotion, _is_merge, _is_bridging, _is_over_cover, _is_single_key,
+                      _is_cross_origin_subset, _is_whole_ring_core, _is_bisect_window):
+        if any(predicate(probe, case) for probe in probes):
+            return True
+    return False
+
+
 FINDING_CLASSES = {
     "C05-F1": _is_promotion,
     "C05-F2": _is_merge,
@@ -849,4 +917,8 @@ FINDING_CLASSES = {
     "C05-F4": _is_over_cover,
     "C05-F5": _is_single_key,
     "C05-F6": _is_cross_origin_subset,
+    "C05-F7": _is_whole_ring_core,
+    "C05-F8": _is_bisect_window,
+    "C05-F9": _is_tie_order,
+    "C05-F10": _is_compound,
 }
